@@ -69,6 +69,9 @@ fn value_of(cssout: &str, prop: &str) -> Option<String> {
 }
 
 pub fn run(ctx: &Ctx) {
+    // the watchdog's clock also covers the harness's own oracle work (reference models, DOM enumeration);
+    // the limit is generous so that machine load cannot turn a slow case into a verdict
+    ctx.hang_limit_s.store(ctx.pick(300, 1800), std::sync::atomic::Ordering::Relaxed);
     let n = SEL.len() as u64;
     let maxn = ctx.pick(3, 4);
 
